@@ -4,6 +4,7 @@ import (
 	"fmt"
 	"os"
 	"path/filepath"
+	"strings"
 )
 
 func init() {
@@ -271,8 +272,11 @@ func filterJobs(jobs []Job) []Job {
 	}
 	var js []Job
 	for _, j := range jobs {
-		if len(j.Name) >= len(f) && j.Name[:len(f)] == f {
-			js = append(js, j)
+		for _, alt := range strings.Split(f, "|") {
+			if strings.HasPrefix(j.Name, alt) {
+				js = append(js, j)
+				break
+			}
 		}
 	}
 	return js
